@@ -1,5 +1,5 @@
 SPECIFICATION MCSpec
 CONSTANTS
   Tier = "quick"
-INVARIANTS TerminalOk NoResultWhenRefused ResultsAfterEval Progress Agrees Emit
+INVARIANTS TerminalOk NoResultWhenRefused ResultsAfterEval FreshWhenWritten Progress Agrees Emit
 CHECK_DEADLOCK FALSE
